@@ -275,6 +275,11 @@ pub fn gen_name(rng: &mut Rng, mode: NameMode) -> String {
             s.push_str(*rng.pick(&MULTI));
         }
     }
+    if mode == NameMode::Mixed && rng.chance(1, 12) {
+        // the HPO convention names retired terms "obsolete ..."; the name is only a name, whether a
+        // term is obsolete is carried by its flag
+        s = format!("{}{s}", *rng.pick(&["obsolete ", "Obsolete ", "obsolete", "OBSOLETE "]));
+    }
     if mode == NameMode::Mixed && rng.chance(1, 25) {
         s.push_str(*rng.pick(&["\t", "\n", "\"", "\\", "\u{0}", " "]));
         s.push_str(*rng.pick(&SYL));
@@ -428,6 +433,12 @@ pub fn gen_records(rng: &mut Rng, f: &mut FactSet, cfg: &GenCfg) {
             let name = match rng.below(40) {
                 0 => String::new(),
                 1 => "-".to_string(),
+                // a name that reads like a keyword of the text formats
+                2 => (*rng.pick(&["NOT", "NOT", "OMIM:1", "HP:0000001", "#comment"])).to_string(),
+                // leading / trailing white space belongs to the name (binary format and Builder; the
+                // text formats' renderer trims it)
+                3 if cfg.names == NameMode::Mixed => format!("{}{name}{}", rng.pick(&[" ", "\t", "", "  "]), rng.pick(&[" ", "\n", "", "\t "])),
+                4 if cfg.names == NameMode::Mixed => (*rng.pick(&[" ", "\t", " \n "])).to_string(),
                 _ => name,
             };
             let mut terms: Vec<u32> = Vec::new();
@@ -554,6 +565,12 @@ pub fn gen_facts(rng: &mut Rng, cfg: &GenCfg) -> FactSet {
                 }
             }
             if cfg.dangling_replacement {
+                for i in 0..total {
+                    // a term that names itself as its replacement
+                    if ids[i] != 0 && !(cfg.defaults && i < 2) && rng.chance(1, 14) {
+                        f.terms[i].replaced_by = Some(ids[i]);
+                    }
+                }
                 for i in n..total {
                     if rng.chance(1, 10) {
                         // a replacement that names no term of this ontology
